@@ -54,6 +54,7 @@ type Step struct {
 	Extra   []string   `json:"extra,omitempty"`          // client's own cookies "k=v"
 	RawSet  []string   `json:"raw_set_cookie,omitempty"` // Set-Cookie lines browsers accept but a strict parser may skip
 	Dup     bool       `json:"dup_session_cookie,omitempty"`
+	Interim int        `json:"interim_status,omitempty"` // the backend's final response is preceded by this 1xx response (as httputil.ReverseProxy relays it)
 }
 
 type Case struct {
@@ -111,6 +112,9 @@ func genCase(t *rapid.T) Case {
 		for j := 0; j < ne; j++ {
 			s.Extra = append(s.Extra, rapid.SampledFrom([]string{"own", "lang", "sid", "x"}).Draw(t, "ename")+"="+rapid.StringMatching(`[a-z0-9]{1,6}`).Draw(t, "evalue"))
 		}
+		if rapid.IntRange(0, 7).Draw(t, "interim") == 0 {
+			s.Interim = rapid.SampledFrom([]int{103, 102, 100}).Draw(t, "interimStatus")
+		}
 		c.Steps = append(c.Steps, s)
 	}
 	return c
@@ -144,8 +148,15 @@ func runCase(c *Case) vh.Outcome {
 	seq := 0
 	var setNow []*http.Cookie
 	var rawNow []string
+	interimNow := 0
 	backend := http.HandlerFunc(func(w http.ResponseWriter, r *http.Request) {
 		got = seen{cookies: r.Cookies(), raw: r.Header.Values("Cookie")}
+		if interimNow != 0 {
+			// what httputil.ReverseProxy does with a 1xx response of the backend
+			w.Header().Set("Link", "</style.css>; rel=preload; as=style")
+			w.WriteHeader(interimNow)
+			w.Header().Del("Link")
+		}
 		for _, ck := range setNow {
 			w.Header().Add("Set-Cookie", ck.String())
 		}
@@ -201,6 +212,10 @@ func runCase(c *Case) vh.Outcome {
 			setNow = append(setNow, ck)
 		}
 		rawNow = st.RawSet
+		interimNow = st.Interim
+		if interimNow != 0 && (len(setNow) > 0 || len(rawNow) > 0) {
+			o.Classes = append(o.Classes, "set-cookie-after-interim-response")
+		}
 		if len(rawNow) > 0 {
 			o.Classes = append(o.Classes, "exotic-set-cookie-lines")
 		}
